@@ -178,24 +178,41 @@ def weightValue (v : Val) (ws : List Rat) : Except Err (List Val) :=
     | .arr _ [n] d => .ok (.arr false [n] (d.map (· * w)))
     | .arr _ _ _ => .error .other      -- rank ≥ 2: not modelled
 
+/-- the sub-periods of a cell that are over at its evaluation date
+(`[p for p in subperiods if p[1] <= cell.evaluation_date]`) -/
+def obsSubs (c : Cell) (res n : Nat) : List (Date × Date) :=
+  (subperiods c.ps res n).filter fun p => p.2 ≤ c.ev
+
+/-- `_weight_cell_values`: every field (selected or not) is weighted; one part per weight -/
+def weightedTable (c : Cell) (cw : List Rat) : Except Err (List (String × List Val)) :=
+  c.values.mapM fun kv => do
+    let parts ← weightValue kv.2 cw
+    pure (kv.1, parts)
+
+/-- `weighted_values[period][field]` for the k-th sub-period and every selected field of the cell;
+`zip(subperiods, new_vals.T)` truncated to the weights ⇒ `KeyError` beyond them -/
+def subValues (c : Cell) (fields : List String) (weighted : List (String × List Val)) (k : Nat) :
+    Except Err (Dict Val) :=
+  (c.values.filter fun kv => fields.contains kv.1).mapM fun kv =>
+    match (weighted.find? (·.1 == kv.1)).bind (fun e => e.2[k]?) with
+    | some v => .ok (kv.1, v)
+    | none => .error .keyError
+
+/-- the `Cell(...)` of the k-th observable sub-period -/
+def subCell (c : Cell) (fields : List String) (weighted : List (String × List Val))
+    (subs : List (Date × Date)) (k : Nat) : Except Err Cell := do
+  let vals ← subValues c fields weighted k
+  let p := subs[k]!
+  ({ kind := .cell, ps := p.1, pe := p.2, ev := c.ev, values := vals, md := c.md } : Cell).mk?
+
 /-- one cell of `_disaggregate_experience_slice` -/
 def disaggCell (c : Cell) (res nPeriods : Nat) (weights : List Rat) (fields : List String) :
     Except Err (List Cell) := do
-  let subs := (subperiods c.ps res nPeriods).filter fun p => p.2 ≤ c.ev
+  let subs := obsSubs c res nPeriods
   let cw := weights.take subs.length            -- `period_weights[: len(subperiods)]`
   if !cw.isEmpty && cw.sum == 0 then throw .other   -- ZeroDivisionError
-  let cw := renorm cw
-  -- `_weight_cell_values`: every field (selected or not) is weighted; `zip` truncates to `cw`
-  let weighted ← c.values.mapM fun kv => do
-    let parts ← weightValue kv.2 cw
-    pure (kv.1, parts)
-  (List.range subs.length).mapM fun k => do
-    let p := subs[k]!
-    let vals ← (c.values.filter fun kv => fields.contains kv.1).mapM fun kv =>
-      match (weighted.find? (·.1 == kv.1)).bind (fun e => e.2[k]?) with
-      | some v => .ok (kv.1, v)
-      | none => .error .keyError
-    ({ kind := .cell, ps := p.1, pe := p.2, ev := c.ev, values := vals, md := c.md } : Cell).mk?
+  let weighted ← weightedTable c (renorm cw)
+  (List.range subs.length).mapM (subCell c fields weighted subs)
 
 /-- `_disaggregate_experience_slice` -/
 def disaggSlice (sl : List Cell) (res : Nat) (weights : List Rat) (fields : List String) :
@@ -205,30 +222,41 @@ def disaggSlice (sl : List Cell) (res : Nat) (weights : List Rat) (fields : List
   let parts ← sl.mapM (disaggCell · res nPeriods weights fields)
   pure parts.flatten
 
-open Generated.Units in
-/-- `disaggregate_experience(triangle, resolution_months, period_weights, fields)` with list (or
-absent) weights -/
-def disaggregateExperience (t : List Cell) (res : Nat) (weights : Option (List Num))
-    (fields : Option (List String)) : Except Err (List Cell) := do
-  if !isSemiRegular t then throw .triangleError
-  let triRes ← periodResolution t
-  if (res : Int) > triRes then throw .valueError
-  if (res : Int) == triRes then return t
-  let fields := fields.getD defaultInterpolationFields
-  if !(triFields t).any (fields.contains ·) then throw .valueError
-  if res == 0 then throw .other                  -- `% 0`: ZeroDivisionError
-  if triRes % (res : Int) != 0 then throw .valueError
-  let n := (triRes / (res : Int)).toNat
-  let ws : List Rat := match weights with
-    | none => List.replicate n (1 / (n : Rat))
-    | some l => l.map Num.toRat
-  -- `_validate_period_weights`
-  if ws.length != n then throw .valueError
-  if !ws.all (fun w => 0 ≤ w && w ≤ 1) then throw .valueError
-  if ws.sum != 1 then throw .valueError
-  if isIncremental t then throw .other           -- not modelled (see header)
+/-- the slice loop and the final `Triangle(cells)` of `disaggregate_experience` -/
+def disaggCore (t : List Cell) (res : Nat) (ws : List Rat) (fields : List String) :
+    Except Err (List Cell) := do
   let parts ← (Triangle.slices t).mapM fun sl => disaggSlice sl.2 res ws fields
   Triangle.ofCells parts.flatten
+
+/-- the weights in use: the given list, or `[1 / n] * n` -/
+def weightsOrDefault (weights : Option (List Num)) (n : Nat) : List Rat :=
+  match weights with
+  | none => List.replicate n (1 / (n : Rat))
+  | some l => l.map Num.toRat
+
+open Generated.Units in
+/-- `disaggregate_experience(triangle, resolution_months, period_weights, fields)` with list (or
+absent) weights; the checks in the order of the code (each `raise` is one `if`) -/
+def disaggregateExperience (t : List Cell) (res : Nat) (weights : Option (List Num))
+    (fields : Option (List String)) : Except Err (List Cell) :=
+  if !isSemiRegular t then .error .triangleError else
+  match periodResolution t with
+  | .error e => .error e
+  | .ok triRes =>
+    if (res : Int) > triRes then .error .valueError else
+    if (res : Int) == triRes then .ok t else
+    let fs := fields.getD defaultInterpolationFields
+    if !(triFields t).any (fs.contains ·) then .error .valueError else
+    if res == 0 then .error .other else              -- `% 0`: ZeroDivisionError
+    if triRes % (res : Int) != 0 then .error .valueError else
+    let n := (triRes / (res : Int)).toNat
+    let ws := weightsOrDefault weights n
+    -- `_validate_period_weights`
+    if ws.length != n then .error .valueError else
+    if !ws.all (fun w => 0 ≤ w && w ≤ 1) then .error .valueError else
+    if ws.sum != 1 then .error .valueError else
+    if isIncremental t then .error .other else       -- not modelled (see header)
+    disaggCore t res ws fs
 
 /-! ## accident_quarter_to_policy_year -/
 
